@@ -479,13 +479,16 @@ def o1_recovery_order(ctx):
     ok_rets = [ret_origin(rb, d) for c, d, rb2 in ret_classes(rb, 0, lambda e: e.kind == "unwind") if c == "ok"]
     plus1 = False
     for x in rf:
-        if x.def_kind == "Closure":
-            for bb in x.live_blocks():
-                for st in x.blocks[bb]["stmts"]:
-                    if st["k"] == "assign" and st["rv"]["k"] == "bin" and st["rv"]["op"] in ("Add", "AddWithOverflow"):
-                        o = x.origin_rvalue(st["rv"])
-                        if const_int(o[3]) == 1 and peel(o[2])[0] == "arg":
-                            plus1 = True
+        for bb in x.live_blocks():
+            for st in x.blocks[bb]["stmts"]:
+                if st["k"] == "assign" and st["rv"]["k"] == "bin" and st["rv"]["op"] in ("Add", "AddWithOverflow"):
+                    o = x.origin_rvalue(st["rv"])
+                    if const_int(o[3]) != 1:
+                        continue
+                    if x.def_kind == "Closure" and peel(o[2])[0] == "arg":
+                        plus1 = True  # Some(max).map(|id| id + 1)
+                    elif x is rb and origin_mentions(o[2], lambda y: y[0] == "variant" and y[2] == "Some"):
+                        plus1 = True  # match max { Some(id) => id + 1, None => 0 }
     r.add(f, "new active id = (max id seen) + 1", plus1, short_span(rb.span))
     # the running maximum only grows: `if fileid > *id { *id = fileid }`
     upd = False
